@@ -1,8 +1,32 @@
+import Martian.Format
 import Driver.Util
 
-/-! Line-protocol handler for property C09 (stub: replaced when the model exists). -/
+/-! Line-protocol handler for property C09 (formatter core). -/
 namespace Driver.C09
+open Martian.Format Driver
 
-def handle (_op : String) (_args : List String) : Option String := none
+def parseEdges (s : String) : Option (List (Nat × Nat)) :=
+  if s == "." then some [] else
+  (s.splitOn ",").mapM fun e =>
+    match e.splitOn "-" with
+    | [a, b] => do let a ← a.toNat?; let b ← b.toNat?; pure (a, b)
+    | _ => none
+
+def handle (op : String) (args : List String) : Option String :=
+  match op, args with
+  | "quote", [s] => do
+    let b ← bytesOfHex s
+    pure (hexOfBytes (quoteString b))
+  | "roundtrip", [s] => do
+    -- unquoteBytes (quoteString s)
+    let b ← bytesOfHex s
+    match Martian.Lexer.unquoteBytes (quoteString b) with
+    | some v => pure ("some " ++ hexOfBytes v)
+    | none => pure "panic"
+  | "toposort", [n, edges] => do
+    let n ← n.toNat?
+    let es ← parseEdges edges
+    pure (" ".intercalate ((topoSort n es).map toString))
+  | _, _ => none
 
 end Driver.C09
